@@ -5,6 +5,7 @@ import io
 import zlib
 
 import common  # noqa: F401  (puts the repo on sys.path)
+import whitebox
 
 
 def fi():
@@ -30,7 +31,7 @@ def show_region(name, r):
 
 def show_state(i):
     return 'total=%d regions=[%s]' % (
-        i._total_count, ','.join(show_region(n, r) for n, r in i._capture_regions.items()))
+        whitebox.total_count(i), ','.join(show_region(n, r) for n, r in whitebox.regions(i).items()))
 
 
 def show_prop(f):
@@ -158,8 +159,9 @@ def run_wrap(allowed, expected, data, sizes):
         decisions.append(show_fmt(w))
     w.close()
     order = list(F.ALL_FORMATS)
-    insps = sorted(w._inspectors, key=lambda i: order.index(i.NAME))
-    per = ';'.join('%s%s %s' % (i.NAME, '!' if i in w._errored_inspectors else '', show_verdict(i, None))
+    insps = sorted(whitebox.w_inspectors(w), key=lambda i: order.index(i.NAME))
+    errd = whitebox.w_errored(w)
+    per = ';'.join('%s%s %s' % (i.NAME, '!' if i in errd else '', show_verdict(i, None))
                    for i in insps)
     return '|'.join(decisions) + '\t' + end + '\t' + show_fmt(w) + '\t' + per, w
 
@@ -180,7 +182,7 @@ def run_fault(allowed, expected, data, sizes, faults, iterator=False):
     w = F.InspectWrapper(src, expected_format=expected, allowed_formats=allowed or None)
     logs = {}
     state = {'chunk': 0}
-    for i in w._inspectors:
+    for i in whitebox.w_inspectors(w):
         logs[i.NAME] = []
 
         def make(i, real):
@@ -211,15 +213,16 @@ def run_fault(allowed, expected, data, sizes, faults, iterator=False):
         out.append(got)
         state['chunk'] += 1
     consumed = sum(len(c) for c in chunks[:state['chunk'] + (0 if end == 'done' else 1)])
-    w.close() if not iterator else w._finish()
+    w.close() if not iterator else whitebox.w_finish(w)
     order = list(F.ALL_FORMATS)
-    insps = sorted(w._inspectors, key=lambda i: order.index(i.NAME))
+    insps = sorted(whitebox.w_inspectors(w), key=lambda i: order.index(i.NAME))
+    errd = whitebox.w_errored(w)
     joined = b''.join(out)
     line = 'out=%d:%d chunks=%d end=%s' % (len(joined), zlib.adler32(joined) & 0xffffffff, len(out), end)
-    per = ';'.join('%s%s:%s' % (i.NAME, '!' if i in w._errored_inspectors else '',
+    per = ';'.join('%s%s:%s' % (i.NAME, '!' if i in errd else '',
                                 ','.join(map(str, logs[i.NAME]))) for i in insps)
     return line + '\t' + per, {'out': joined, 'end': end, 'logs': logs, 'consumed': consumed,
-                               'errored': {i.NAME for i in w._errored_inspectors}}
+                               'errored': {i.NAME for i in errd}}
 
 
 def run_detect(data, tmpdir):
